@@ -2215,7 +2215,7 @@ def run(run: core.Run, tier: str):
       "model, model but one layer, none}, the plan CHANGED and all variables replaced (layer.set_weights / model.set_weights / "
       "variable.assign) before the second unfolding; every variable of every layer of the unfolded model compared with the "
       "expectation, the source layer and the Lean layer-list model (unfoldLayers).  "
-      "to_folded stream (code with fix ff4bdc9): 8 stock templates (sequential, branched Add, shared conv, relu between, "
+      "to_folded stream (code with fix 41c6274): 8 stock templates (sequential, branched Add, shared conv, relu between, "
       "bn first, residual depthwise, QConv2D, conv with activation) + 8 templates whose fold sites feed order-sensitive "
       "merges (Subtract / Concatenate with the removed batch norm as first / second / both / two of four inputs, a conv "
       "shared by its batch norm and the merge, no batch norm at all); convert_to_folded_model and "
